@@ -155,10 +155,10 @@ pub fn run(tier: Tier, seed: u64) -> i32 {
             let idx = u / 3;
             let variant = u % 3;
             let body = sp.unrank(k, idx);
-            if body.iter().filter(|s| matches!(s, Stmt::Declare(..))).count() > 1 {
+            let prog = Program { header: vec!["A".into(), "B".into(), "Q".into()], body };
+            if prog.declares().len() > 1 {
                 return;
             }
-            let prog = Program { header: vec!["A".into(), "B".into(), "Q".into()], body };
             let mut ls = lines(&prog);
             match variant {
                 1 => {
